@@ -1,9 +1,83 @@
-N = {"quick": 300, "thorough": 6000}
+N = {"quick": 400, "thorough": 8000}
 EXHAUSTIVE = {"quick": False, "thorough": True}
-RULE = "tbd"
-ASSUMPTIONS = []
-SOURCE_FILES = []
+RULE = ("one fixed case covering the WHOLE ExchangeId enum (42 variants: exall + per variant exch / exde of as_str and of the variant identifier / "
+        "new_from_exchange / new_from_exchange_underlying; the harness' table is complete by construction: a wildcard-free `match` over ExchangeId "
+        "makes it fail to compile when a variant is added or removed, and `exall` compares the table with the variant list parsed from exchange.rs) "
+        "+ random cases of three kinds: 30 % name cases (12 / thorough 24 stateless ops over {ani, ane, ini, ine, nfe, nfu, eqci, cmp, asset, assetx, "
+        "idx, keyed, side, sidede, exde, md}; strings from a per-case pool of 4 built from 10 words in 5 casings, 5 separators, digits, 6 % with one of "
+        "14 awkward ASCII characters (quote, backslash, control characters, the neighbours of A-Z / a-z), 3 % empty; market-data kinds with 12 boundary "
+        "expiries (epoch, day boundaries, 29 Feb 2000 / 2024, 1 Jan 2100, 31 Dec 9999) and strikes with scale 0-8 incl. 0 and negatives), 10 % the same with a "
+        "non-ASCII probe stream (Latin-1, Greek, Cyrillic capitals / smalls, U+0130, final and capital sigma in strings of <= 20 bytes, uncased CJK / emoji / "
+        "Arabic digit; compared implementation-vs-model only, the spec is silent), 60 % index cases (0-6 / thorough 0-10 definitions through Instrument::new / "
+        "Instrument::spot over 1-4 exchanges drawn from the whole enum, 2-4 instrument names and 2-4 assets each written in random casings so that different "
+        "raw spellings collide after normalisation, 20 % verbatim repeats, 12 % an internal asset name with two exchange names, all four kinds, specs with asset "
+        "/ contract / quote units; then map_exchange_key / map_asset_key_with_lookup with a random set of missing assets, `build` (IndexedInstruments::new = "
+        "builder = from_iter, the three accessor tables) and 4-10 (16) lookups find_exchange_index / find_exchange / find_asset_index / find_asset / "
+        "find_instrument_index / find_instrument with present and absent keys, out-of-range indices, names in other casings; 4 % lookups before build, 3 % a "
+        "49-character name). thorough additionally enumerates every string of length <= 3 over {a, B, _} (40 strings: the three constructors, and eqci + cmp "
+        "for every ordered pair) and every sequence of 1-3 definitions from a pool of four that collide in every way, each followed by a full lookup sweep "
+        "(3 exchanges x 5 asset names x 4 instrument names, every index up to one past the end). A case is distinct by the SHA-1 of its op lines and "
+        "non-trivial when two of its ops produce different observations")
+ASSUMPTIONS = [
+    "char::is_lowercase / char::to_lowercase are modelled exactly on ASCII; on Latin-1, Greek U+0391-U+03C9, Cyrillic U+0400-U+045F and U+0130 the model's table is an "
+    "assumption that the non-ASCII probe stream exercises (implementation vs model only); every other character is taken as uncased and is generated only from "
+    "uncased blocks. All theorems that mention the documentation's word `lowercase` are stated for ASCII (IsAscii); idempotence and the constructor identities hold "
+    "for the whole model table",
+    "StrExt::to_lowercase_smolstr lower-cases character by character only for strings of <= 23 UTF-8 bytes; longer strings go through str::to_lowercase, which maps a "
+    "word-final capital sigma to U+03C2. Only the character-wise mapping is modelled; generated strings containing a capital sigma stay below 21 bytes and are not used "
+    "where the constructor prepends an exchange name",
+    "names entering the builder model (Model/Index.lean, naturals) go through the name code `code`: injective and strictly monotone for at most 48 Unicode scalar values "
+    "(proved: name_code_faithful); longer names are answered `toolong` by harness, model and spec alike. ExchangeId enters as its declaration position (bijection proved), "
+    "decimals and expiries of an Instrument as naturals (integer Decimals, millisecond timestamps)",
+    "serde is modelled at the level of the serde data model for the name types, ExchangeId and Side (a string in, a string out); for MarketDataInstrument the JSON text "
+    "serde_json produces is modelled (string escaping included) and compared, its deserialiser is exercised by the harness only (round trip = 1)",
+    "Decimal's Display is modelled from (mantissa, scale) as given to Decimal::new, scale <= 8 in generated cases; NaiveDate's Display for timestamps >= 0 up to year 9999 "
+    "(proleptic Gregorian civil-from-days); negative timestamps and 5-digit years are not generated",
+    "IndexError payload strings are not compared (only the variant and that Display starts with the variant's prefix); Hash / Ord derives other than the string order used "
+    "by the builder's sort are not modelled; Borrow / AsRef are checked to return the name (harness-side equality)",
+    "the spec (oracle) is silent where the documentation does not determine the answer or the code contradicts it: non-ASCII inputs, new_from_exchange_underlying's exchange "
+    "prefix, Display of ExchangeId, the error variant of a failed find_instrument_index, the value returned by positional lookups",
+    "well-formedness hypotheses of C11 (WFAssets, WFNames) are NOT assumed: duplicates of (exchange, name_internal) and internal asset names with two exchange names are "
+    "generated on purpose and covered by the first-match theorems",
+]
+SOURCE_FILES = ["barter-instrument/src/asset/name.rs", "barter-instrument/src/asset/mod.rs", "barter-instrument/src/instrument/name.rs",
+                "barter-instrument/src/exchange.rs", "barter-instrument/src/instrument/market_data/mod.rs",
+                "barter-instrument/src/instrument/market_data/kind.rs", "barter-instrument/src/instrument/mod.rs",
+                "barter-instrument/src/instrument/kind/mod.rs", "barter-instrument/src/instrument/kind/option.rs", "barter-instrument/src/lib.rs",
+                "barter-instrument/src/index/mod.rs", "barter-instrument/src/index/error.rs"]
+
+
+def signature(ops, k, key, impl_line, spec_line):
+    """clause = observation key, class = the op kind (for lookups: found / missing as the spec sees it)"""
+    try:
+        op = ops[k].split()[0]
+        return f"clause={key}/{op}"
+    except Exception:
+        return f"clause={key}"
+
+
 CLAIM = False
-TECHNIQUE = "tbd"
-LEVEL_TEXT = "tbd"
-LEVEL_NOTE = "tbd"
+TECHNIQUE = ("Lean 4: function-for-function model of the name / key types of barter-instrument and of the error-carrying lookups of IndexedInstruments on top of the C11 "
+             "builder model (strings enter it through a proved order-preserving injective code); finite-table facts by kernel `decide` over the whole ExchangeId enum; "
+             "first-match characterisation of find_map lookups; refinement to a specification written from the doc comments; correspondence with the real functions")
+LEVEL_TEXT = ("Sub-check of C11. Lean theorems (lean/BarterModel/Props/C11N.lean, 66 audited), all for arbitrary inputs unless marked ASCII: internal names are the lower-cased "
+              "input, the all-lowercase shortcut is unobservable, constructors idempotent, (ASCII) equal to the documented letter-table reading, length preserving, and two "
+              "inputs give the same name iff they are equal up to the case of Latin letters; exchange names verbatim; Display / Serialize / Deserialize round trip for every "
+              "constructed value and, for an arbitrary value of the pub-field InstrumentNameInternal, iff it is already lower-case; the ExchangeId table: 42 variants, "
+              "declaration position a bijection, as_str injective, serde snake_case = as_str = documented reading, what deserialises to a variant (as_str, plus `huobi` for "
+              "Htx), Display = variant identifier, never as_str; new_from_exchange = as_str-dash-lowercased name and determines the exchange and the name up to case "
+              "(`unique across exchanges`); new_from_exchange_underlying uses Display, agrees with new_from_exchange exactly for the 26 exchanges without an underscore, and "
+              "does not determine (base, quote); the name code is injective, strictly monotone w.r.t. Rust's str order, and decodable (<= 48 characters); Instrument::new / "
+              "spot / map_exchange_key laws; map_asset_key_with_lookup succeeds iff every referenced asset is found and otherwise returns the lookup's error of the first "
+              "missing reference in the order base, quote, settlement, quantity unit, and with the error forgotten it is the Option form the C11 builder model uses; market-data view; for EVERY index the C11 builder model can produce, without "
+              "well-formedness hypotheses: each find_*_index answers Ok i iff position i holds a matching entry and no earlier position does (for exchanges: iff position i "
+              "holds it), each find_* (i) returns the i-th entry iff i is in range, a miss gives exactly the stated IndexError and happens iff no definition mentions the key; "
+              "exchanges() / assets() hold exactly the exchanges / (exchange, asset) pairs the definitions mention, each once, key = position; exchanges() is strictly ascending and "
+              "find_exchange_index is the rank among the distinct exchanges; with several definitions under one (exchange, "
+              "name_internal) find_instrument_index returns the least in the derived order; on string-named definitions the lookups refine the documented behaviour "
+              "(found iff added during initialisation, round trip through the positional lookup, case of the queried name ignored). Counter-documentation facts are theorems "
+              "too: missing_instrument_reports_asset_error, display_is_not_as_str / underlying_agrees_iff / underlying_collision, display_not_value_function. The model is "
+              "tied to the code by running the same ops through the real functions.")
+LEVEL_NOTE = ("Trusted: Lean kernel (axioms propext/Classical.choice/Quot.sound only); the hand-written model tied by sampled correspondence (whole ExchangeId enum on every run); "
+              "harness and driver; the non-ASCII rows of the case tables are an assumption (probed, not proved); str::to_lowercase's final-sigma rule for names longer than 23 "
+              "bytes is outside the model.")
